@@ -87,7 +87,7 @@ static std::string result_json(const World &w, const Plan &p, long idx, uint64_t
     o << (first ? "" : ",") << "\"disk.opens\":" << d.opens << ",\"disk.opens_write\":" << d.opens_write << ",\"disk.closes\":" << d.closes
       << ",\"disk.preads\":" << d.preads << ",\"disk.pwrites\":" << d.pwrites << ",\"disk.ftruncates\":" << d.ftruncates << ",\"disk.flocks\":" << d.flocks
       << ",\"disk.bytes_written\":" << d.bytes_written << ",\"disk.perturb_fired\":" << d.perturb_fired
-      << ",\"clock.reads\":" << clock_reads() << ",\"entropy.draws\":" << entropy_draws() << ",\"h5knob.applied\":" << h5knob_applied() << ",\"h5knob.small_transfer_buffer_calls\":" << h5knob_tbuf_applied()
+      << ",\"clock.reads\":" << clock_reads() << ",\"entropy.draws\":" << entropy_draws() << ",\"h5knob.applied\":" << h5knob_applied() << ",\"h5knob.small_transfer_buffer_calls\":" << h5knob_tbuf_applied() << ",\"h5knob.small_metadata_cache_opens\":" << h5knob_mdc_applied()
       << ",\"getters\":" << w.getters;
     o << "}}";
     return o.str();
